@@ -134,22 +134,22 @@
         std::mem::forget(r);
     }
 
-// @h id=H8.3 prop=C08 tier=quick cap=900 mem=14 unwind=12 uw="from_reader_impl=3" checks=std cbmc="--malloc-fail-assert --object-bits 24" bounds="entry count = any u64 (10-byte varint), followed by 0..1 further bytes; allocations above CBMC's 2^39-byte object limit are assertion failures"
+// @h id=H8.3-k$k prop=C08 rep="k:0-5" quick="0-5" cap=600 mem=14 unwind=12 uw="from_reader_impl=3" checks=std alloclimit=31 stubs="allocator model: Kani's __rust_alloc/__rust_alloc_zeroed/__rust_realloc plus an assertion that no single request exceeds 2^31 bytes" bounds="entry count = one of {2^63, 2^64-1, 2^40, 2^35, 16385, 3} (10-byte varint), followed by 2 arbitrary bytes; a single allocation request above 2^31 bytes is an assertion failure"
     /// an entry count near 2^64 that is not backed by data is answered with an error: no capacity-overflow panic, no absurd allocation
     #[kani::proof]
-    fn h8_3_count_hazard() {
-        let count: u64 = kani::any();
-        let extra: u8 = kani::any();
-        let mut img = [0u8; 11];
+    fn h8_3_count_hazard_k$k() {
+        const COUNTS: [u64; 6] = [1u64 << 63, u64::MAX, 1u64 << 40, 1u64 << 35, 16385, 3];
+        let count: u64 = COUNTS[$k];
+        let x0: u8 = kani::any();
+        let x1: u8 = kani::any();
+        let mut img = [0u8; 12];
         vr::put_varint_w(&mut img, 0, count, 10);
-        img[10] = extra;
+        img[10] = x0;
+        img[11] = x1;
         let r = Directory::from_bytes(&img[..], Compression::None);
-        if count >= 2 {
-            assert!(r.is_err());
-        }
-        kani::cover!(count == u64::MAX);
-        kani::cover!(count == 1u64 << 40);
-        kani::cover!(count == 0 && r.is_ok());
+        assert!(r.is_err());
+        kani::cover!(x0 == 0x80 && x1 == 0);
+        kani::cover!(x0 == 1);
         std::mem::forget(r);
     }
 
